@@ -80,31 +80,43 @@ func isHeightKey(k datastore.Key) bool {
 	return true
 }
 
+// Get: a reader held at a gate has ALREADY done the underlying read and will return that (by then
+// possibly stale) answer when released: a slow datastore read. So a held lookup is linearised at
+// its arrival, whatever is committed meanwhile (any WriteBatchSize, Sync). The flush goroutine is
+// held before its read.
 func (g *gateDS) Get(ctx context.Context, k datastore.Key) ([]byte, error) {
-	if isHeightKey(k) {
+	if !isHeightKey(k) {
+		return g.Batching.Get(ctx, k)
+	}
+	rid, isReader := ctx.Value(ridKey{}).(int)
+	if isReader {
+		val, err := g.Batching.Get(ctx, k)
 		var ch chan struct{}
-		rid, isReader := ctx.Value(ridKey{}).(int)
 		g.mu.Lock()
-		if isReader {
-			g.rgets[rid]++
-			n := g.rgets[rid]
-			if ch = g.rgate[rid][n]; ch != nil {
-				delete(g.rgate[rid], n)
-				g.at[rid] = n
-			}
-		} else if g.wgate != nil {
-			ch = g.wgate
-			g.wgate = nil
+		g.rgets[rid]++
+		n := g.rgets[rid]
+		if ch = g.rgate[rid][n]; ch != nil {
+			delete(g.rgate[rid], n)
+			g.at[rid] = n
 		}
 		g.mu.Unlock()
 		if ch != nil {
 			<-ch
-			if isReader {
-				g.mu.Lock()
-				g.at[rid] = 0
-				g.mu.Unlock()
-			}
+			g.mu.Lock()
+			g.at[rid] = 0
+			g.mu.Unlock()
 		}
+		return val, err
+	}
+	var ch chan struct{}
+	g.mu.Lock()
+	if g.wgate != nil {
+		ch = g.wgate
+		g.wgate = nil
+	}
+	g.mu.Unlock()
+	if ch != nil {
+		<-ch
 	}
 	return g.Batching.Get(ctx, k)
 }
@@ -118,6 +130,7 @@ const (
 	BG   = "BG"   // Append(Hs), flush held in advanceHead's first index read (after Notify)
 	WREL = "WREL" // release the flush goroutine
 	CAN  = "CAN"  // cancel reader I's context
+	SYNC = "SYNC" // Store.Sync: the pending batch is written to the datastore and reset
 )
 
 type op struct {
@@ -384,6 +397,15 @@ func runScenario(t *testing.T, w *world, sc scen) (res result) {
 				batch(o.Hs, true)
 			case WREL:
 				wrelease()
+			case SYNC:
+				wrelease()
+				sctx, c := context.WithTimeout(bg, time.Minute)
+				if err := st.Sync(sctx); err != nil {
+					t.Fatal(err)
+				}
+				c()
+				synctest.Wait()
+				running(-1)
 			case CAN:
 				r := rs[o.I]
 				r.cancel()
@@ -482,6 +504,16 @@ func corpus() []scen {
 			Ops: []op{{K: B, Hs: []uint64{1}}, {K: SG, I: 0}, {K: SU, I: 1}, {K: B, Hs: []uint64{3}}, {K: REL, I: 0}}},
 		{Name: "corpus/F5-fill-later", Ns: []uint64{4}, Batch: 64,
 			Ops: []op{{K: B, Hs: []uint64{1}}, {K: SG, I: 0}, {K: B, Hs: []uint64{4}}, {K: REL, I: 0}, {K: B, Hs: []uint64{2, 3}}}},
+		// the same with the header already written to the datastore (pending batch reset) when the reader
+		// is released: the re-lookup must go through the datastore, not only through pending
+		{Name: "corpus/F5-on-disk-batch1", Ns: []uint64{3}, Batch: 1,
+			Ops: []op{{K: B, Hs: []uint64{1}}, {K: SG, I: 0}, {K: B, Hs: []uint64{3}}, {K: REL, I: 0}}},
+		{Name: "corpus/F5-on-disk-batch2", Ns: []uint64{4}, Batch: 2,
+			Ops: []op{{K: B, Hs: []uint64{1, 2}}, {K: SG, I: 0}, {K: B, Hs: []uint64{4, 5}}, {K: REL, I: 0}}},
+		{Name: "corpus/F5-on-disk-sync", Ns: []uint64{3}, Batch: 64,
+			Ops: []op{{K: B, Hs: []uint64{1}}, {K: SG, I: 0}, {K: B, Hs: []uint64{3}}, {K: SYNC}, {K: REL, I: 0}}},
+		{Name: "corpus/F5-on-disk-sync-2-readers", Ns: []uint64{5, 5}, Batch: 64,
+			Ops: []op{{K: B, Hs: []uint64{1, 2}}, {K: SG, I: 0}, {K: SG, I: 1, G2: true}, {K: B, Hs: []uint64{5}}, {K: SYNC}, {K: REL, I: 0}, {K: REL, I: 1}}},
 		// held in the re-lookup (registered, pending read done, not yet in the select) while the header arrives
 		{Name: "corpus/held-in-relookup", Ns: []uint64{3}, Batch: 64,
 			Ops: []op{{K: B, Hs: []uint64{1}}, {K: SU, I: 0, G2: true}, {K: B, Hs: []uint64{3}}, {K: REL, I: 0}}},
@@ -497,7 +529,7 @@ func TestC12(t *testing.T) {
 		"second one (the re-lookup after registering); release; Append batch with the flush free / held after Notify in advanceHead's index read; release flush; " +
 		"cancel reader}; each macro op is followed by synctest.Wait and expanded into the model's schedule; corpus (former lost wake-up F5 and variants) first; " +
 		"sweep: prefix {empty, [1,2]} x batch shape {contiguous 1, contiguous 2, gapped, unordered, with hole} x requested height {each appended, below, beyond, stored, 0} x " +
-		"4 reader hold modes x 2 flush hold modes x all merges of the reader's and the flush's macro sequences x cancel position (sampled in quick, all in thorough) + gap-filling " +
+		"4 reader hold modes x 2 flush hold modes x {WriteBatchSize 64, 1, 2, explicit Sync after the Append: header on disk, pending reset} x all merges of the reader's and the flush's macro sequences x cancel position (sampled in quick, all in thorough) + gap-filling " +
 		"batch; plus random scenarios with 2-3 readers, 1-4 batches, WriteBatchSize {1,2,64}; plus free-running race rounds (long batches, spinning gates, header-method hook) " +
 		"whose model outcome is schedule-independent; distinct by scenario; non-trivial when a reader or the flush was held, a context cancelled, or a race round"
 	w := newWorld()
@@ -506,7 +538,7 @@ func TestC12(t *testing.T) {
 		key := fmt.Sprintf("%v/%v/%d", sc.Ns, sc.Ops, sc.Batch)
 		nontriv := false
 		for _, o := range sc.Ops {
-			if o.K == SG || o.K == BG || o.K == CAN || o.G2 {
+			if o.K == SG || o.K == BG || o.K == CAN || o.K == SYNC || o.G2 {
 				nontriv = true
 			}
 		}
@@ -584,10 +616,29 @@ func TestC12(t *testing.T) {
 							}
 							ops := append(pre, m...)
 							name := fmt.Sprintf("sweep/p%d/%s/n%d/r%d/wg%v/m%d", len(prefix), sh.name, n, rmode, wg, mi)
-							if !thorough && rng.Chance(35) {
-								continue // quick: a seed-dependent 65% sample of the sweep; thorough: all of it
+							if !thorough && rng.Chance(60) {
+								continue // quick: a seed-dependent 40% sample of the sweep; thorough: all of it
 							}
 							add(scen{Name: name, Ns: []uint64{n}, Ops: ops, Batch: 64})
+							// the same schedule with the header(s) written out to the datastore and pending reset:
+							// WriteBatchSize 1 / 2, or an explicit Sync after the Append
+							if rmode != 0 {
+								var alts []scen
+								alts = append(alts, scen{Name: name + "/bs1", Ns: []uint64{n}, Ops: ops, Batch: 1},
+									scen{Name: name + "/bs2", Ns: []uint64{n}, Ops: ops, Batch: 2})
+								for p, o := range ops {
+									if o.K == B || o.K == WREL {
+										alts = append(alts, scen{Name: name + "/sync", Ns: []uint64{n}, Ops: insertAt(ops, p+1, op{K: SYNC}), Batch: 64})
+									}
+								}
+								if thorough {
+									for _, a := range alts {
+										add(a)
+									}
+								} else {
+									add(alts[rng.Intn(len(alts))])
+								}
+							}
 							// cancellation at every / one position
 							var ps []int
 							if thorough {
@@ -598,12 +649,14 @@ func TestC12(t *testing.T) {
 								ps = []int{len(pre) + rng.Intn(len(m)+1)}
 							}
 							for _, p := range ps {
-								add(scen{Name: fmt.Sprintf("%s/c%d", name, p), Ns: []uint64{n}, Ops: insertAt(ops, p, op{K: CAN, I: 0}), Batch: 64})
+								add(scen{Name: fmt.Sprintf("%s/c%d", name, p), Ns: []uint64{n}, Ops: insertAt(ops, p, op{K: CAN, I: 0}),
+									Batch: []int{64, 64, 1, 2}[rng.Intn(4)]})
 							}
 							// a later batch that fills the gap (SetHeight reaches n as well)
 							if (sh.name == "gapped" || sh.name == "hole") && (thorough || mi%2 == 1) {
 								fill := []uint64{base, base + 1}
-								add(scen{Name: name + "/fill", Ns: []uint64{n}, Ops: append(append([]op(nil), ops...), op{K: B, Hs: fill}), Batch: 64})
+								add(scen{Name: name + "/fill", Ns: []uint64{n}, Ops: append(append([]op(nil), ops...), op{K: B, Hs: fill}),
+									Batch: []int{64, 1, 2}[rng.Intn(3)]})
 							}
 						}
 					}
@@ -660,7 +713,7 @@ func TestC12(t *testing.T) {
 func randomScenario(rng *emit.Rand, k int) scen {
 	nr := 2 + rng.Intn(2)
 	bs := []int{64, 64, 64, 1, 2}[rng.Intn(5)]
-	gates := bs == 64
+	gates := true // a held lookup has already read the datastore, so any WriteBatchSize may be combined with gates
 	// batches over heights 1..9
 	nb := 1 + rng.Intn(4)
 	var batches [][]uint64
@@ -724,6 +777,9 @@ func randomScenario(rng *emit.Rand, k int) scen {
 			wseq = append(wseq, op{K: BG, Hs: hs}, op{K: WREL})
 		} else {
 			wseq = append(wseq, op{K: B, Hs: hs})
+		}
+		if rng.Chance(20) {
+			wseq = append(wseq, op{K: SYNC})
 		}
 	}
 	seqs = append(seqs, wseq)
